@@ -2090,6 +2090,127 @@ def current_date (date : Int) (_sub_day : Int) : Chk Int :=
 def current_date_safe (date : Int) (_sub_day : Int) : Prop :=
   True
 
+/-- `date.rs::week_day_of_julian` (date.rs:361), body sha1 f8d25d08c977 -/
+def week_day_of_julian (date : Int) : Int :=
+  -- date.rs:362: let mut date = date;
+  let date : Int := date
+  -- date.rs:363: date %= 7;
+  let date : Int := rrem date 7
+  -- date.rs:365: if date < 0 {
+  let date : Int :=
+    if date < 0 then
+      -- date.rs:366: date += 7;
+      let date : Int := date + 7
+      date
+    else
+      date
+  date
+
+/-- No arithmetic node of `date.rs::week_day_of_julian` leaves its Rust integer type, no division by zero, no index out of range
+    (path-sensitive; calls contribute the callee's predicate). -/
+def week_day_of_julian_safe (date : Int) : Prop :=
+  let date : Int := date
+  let date : Int := rrem date 7
+  date < 0 → fitsI32 (date + 7)
+
+/-- `date.rs::Date::date_to_iso_year` (date.rs:358), body sha1 c12168ba3170 -/
+-- inlined helpers: date.rs::DateTime for Date::year
+def Date.date_to_iso_year (self : Int) : Int :=
+  -- date.rs:371: let mut year = self.year().unwrap();
+  let year : Int :=
+    (fun (self : Int) => let t1 : Int × Int × Int := Tr.Date.extract self; let year : Int := t1.1; year) self
+  -- date.rs:373: let current_julian_day = self.days() + UNIX_EPOCH_JULIAN;
+  let current_julian_day : Int := self + Tr.UNIX_EPOCH_JULIAN
+  -- date.rs:375: let mut fourth_julian_day = date2julian(year, 1, 4);
+  let fourth_julian_day : Int := Tr.date2julian year 1 4
+  -- date.rs:377: let mut offset_to_monday = week_day_of_julian(fourth_julian_day);
+  let offset_to_monday : Int := Tr.week_day_of_julian fourth_julian_day
+  -- date.rs:381: if current_julian_day < fourth_julian_day - offset_to_monday {
+  let year_fourth_julian_day_offset_to_monday : Int × Int × Int :=
+    if current_julian_day < fourth_julian_day - offset_to_monday then
+      -- date.rs:382: fourth_julian_day = date2julian(year - 1, 1, 4);
+      let fourth_julian_day : Int := Tr.date2julian (year - 1) 1 4
+      -- date.rs:383: offset_to_monday = week_day_of_julian(fourth_julian_day);
+      let offset_to_monday : Int := Tr.week_day_of_julian fourth_julian_day
+      -- date.rs:384: year -= 1;
+      let year : Int := year - 1
+      (year, fourth_julian_day, offset_to_monday)
+    else
+      (year, fourth_julian_day, offset_to_monday)
+  let year : Int := year_fourth_julian_day_offset_to_monday.1
+  let fourth_julian_day : Int := year_fourth_julian_day_offset_to_monday.2.1
+  let offset_to_monday : Int := year_fourth_julian_day_offset_to_monday.2.2
+  -- date.rs:389: let num_of_week = (current_julian_day - (fourth_julian_day - offset_to_monday)) / 7 + 1;
+  let num_of_week : Int := rdiv (current_julian_day - (fourth_julian_day - offset_to_monday)) 7 + 1
+  -- date.rs:390: if num_of_week >= 52 {
+  let year_fourth_julian_day_offset_to_monday : Int × Int × Int :=
+    if num_of_week ≥ 52 then
+      -- date.rs:391: fourth_julian_day = date2julian(year + 1, 1, 4);
+      let fourth_julian_day : Int := Tr.date2julian (year + 1) 1 4
+      -- date.rs:392: offset_to_monday = week_day_of_julian(fourth_julian_day);
+      let offset_to_monday : Int := Tr.week_day_of_julian fourth_julian_day
+      let year : Int :=
+        if current_julian_day ≥ fourth_julian_day - offset_to_monday then
+          -- date.rs:394: year += 1;
+          let year : Int := year + 1
+          year
+        else
+          year
+      (year, fourth_julian_day, offset_to_monday)
+    else
+      (year, fourth_julian_day, offset_to_monday)
+  let year : Int := year_fourth_julian_day_offset_to_monday.1
+  let fourth_julian_day : Int := year_fourth_julian_day_offset_to_monday.2.1
+  let offset_to_monday : Int := year_fourth_julian_day_offset_to_monday.2.2
+  year
+
+/-- No arithmetic node of `date.rs::Date::date_to_iso_year` leaves its Rust integer type, no division by zero, no index out of range
+    (path-sensitive; calls contribute the callee's predicate). -/
+def Date.date_to_iso_year_safe (self : Int) : Prop :=
+  (fun (self : Int) => Tr.Date.extract_safe self) self ∧
+  let year : Int :=
+    (fun (self : Int) => let t1 : Int × Int × Int := Tr.Date.extract self; let year : Int := t1.1; year) self
+  fitsI32 (self + Tr.UNIX_EPOCH_JULIAN) ∧
+  let current_julian_day : Int := self + Tr.UNIX_EPOCH_JULIAN
+  Tr.date2julian_safe year 1 4 ∧
+  let fourth_julian_day : Int := Tr.date2julian year 1 4
+  Tr.week_day_of_julian_safe fourth_julian_day ∧
+  let offset_to_monday : Int := Tr.week_day_of_julian fourth_julian_day
+  fitsI32 (fourth_julian_day - offset_to_monday) ∧
+  (current_julian_day < fourth_julian_day - offset_to_monday →
+    fitsI32 (year - 1) ∧
+    Tr.date2julian_safe (year - 1) 1 4 ∧
+    let fourth_julian_day : Int := Tr.date2julian (year - 1) 1 4
+    Tr.week_day_of_julian_safe fourth_julian_day ∧
+    let offset_to_monday : Int := Tr.week_day_of_julian fourth_julian_day
+    fitsI32 (year - 1)) ∧
+  let year_fourth_julian_day_offset_to_monday : Int × Int × Int :=
+    if current_julian_day < fourth_julian_day - offset_to_monday then
+      -- date.rs:382: fourth_julian_day = date2julian(year - 1, 1, 4);
+      let fourth_julian_day : Int := Tr.date2julian (year - 1) 1 4
+      -- date.rs:383: offset_to_monday = week_day_of_julian(fourth_julian_day);
+      let offset_to_monday : Int := Tr.week_day_of_julian fourth_julian_day
+      -- date.rs:384: year -= 1;
+      let year : Int := year - 1
+      (year, fourth_julian_day, offset_to_monday)
+    else
+      (year, fourth_julian_day, offset_to_monday)
+  let year : Int := year_fourth_julian_day_offset_to_monday.1
+  let fourth_julian_day : Int := year_fourth_julian_day_offset_to_monday.2.1
+  let offset_to_monday : Int := year_fourth_julian_day_offset_to_monday.2.2
+  fitsI32 (fourth_julian_day - offset_to_monday) ∧
+  fitsI32 (current_julian_day - (fourth_julian_day - offset_to_monday)) ∧
+  fitsI32 (rdiv (current_julian_day - (fourth_julian_day - offset_to_monday)) 7 + 1) ∧
+  let num_of_week : Int := rdiv (current_julian_day - (fourth_julian_day - offset_to_monday)) 7 + 1
+  (num_of_week ≥ 52 →
+    fitsI32 (year + 1) ∧
+    Tr.date2julian_safe (year + 1) 1 4 ∧
+    let fourth_julian_day : Int := Tr.date2julian (year + 1) 1 4
+    Tr.week_day_of_julian_safe fourth_julian_day ∧
+    let offset_to_monday : Int := Tr.week_day_of_julian fourth_julian_day
+    fitsI32 (fourth_julian_day - offset_to_monday) ∧
+    (current_julian_day ≥ fourth_julian_day - offset_to_monday → fitsI32 (year + 1)))
+
 /-- `date.rs::Date::round_week_internal` (date.rs:402), body sha1 247aed71a25e -/
 def Date.round_week_internal (self : Int) (year : Int) : Chk Int :=
   -- date.rs:403: const WEEK_TABLE: [(DateSubMethod, i32); 8] = [
@@ -2183,6 +2304,35 @@ def Date.trunc_century_safe (self : Int) : Prop :=
   let year : Int := rdiv year 100 * 100 + 1
   Tr.Date.from_ymd_unchecked_safe year 1 1
 
+/-- `timestamp.rs::Trunc for Timestamp::trunc_century` (timestamp.rs:229), body sha1 388438bd6799 -/
+def Timestamp.trunc_century (self : Int) : Chk Int :=
+  match Tr.Date.trunc_century (Tr.Timestamp.date self) with
+  | Except.error err => Except.error err
+  | Except.ok r1 => Except.ok (Tr.Date.and_zero_time r1)
+
+/-- No arithmetic node of `timestamp.rs::Trunc for Timestamp::trunc_century` leaves its Rust integer type, no division by zero, no index out of range
+    (path-sensitive; calls contribute the callee's predicate). -/
+def Timestamp.trunc_century_safe (self : Int) : Prop :=
+  Tr.Timestamp.date_safe self ∧
+  Tr.Date.trunc_century_safe (Tr.Timestamp.date self) ∧
+  (match Tr.Date.trunc_century (Tr.Timestamp.date self) with
+   | Except.error err => True
+   | Except.ok r1 => Tr.Date.and_zero_time_safe r1)
+
+/-- `oracle.rs::Trunc for OracleDate::trunc_century` (oracle.rs:190), body sha1 045f9ecc363f -/
+def OracleDate.trunc_century (self : Int) : Chk Int :=
+  match Tr.Timestamp.trunc_century self with
+  | Except.error err => Except.error err
+  | Except.ok r1 => Except.ok (Tr.OracleDate.from_timestamp r1)
+
+/-- No arithmetic node of `oracle.rs::Trunc for OracleDate::trunc_century` leaves its Rust integer type, no division by zero, no index out of range
+    (path-sensitive; calls contribute the callee's predicate). -/
+def OracleDate.trunc_century_safe (self : Int) : Prop :=
+  Tr.Timestamp.trunc_century_safe self ∧
+  (match Tr.Timestamp.trunc_century self with
+   | Except.error err => True
+   | Except.ok r1 => Tr.OracleDate.from_timestamp_safe r1)
+
 /-- `date.rs::Trunc for Date::trunc_year` (date.rs:463), body sha1 8042d0203977 -/
 -- inlined helpers: date.rs::DateTime for Date::year
 def Date.trunc_year (self : Int) : Chk Int :=
@@ -2193,6 +2343,98 @@ def Date.trunc_year (self : Int) : Chk Int :=
 def Date.trunc_year_safe (self : Int) : Prop :=
   (fun (self : Int) => Tr.Date.extract_safe self) self ∧
   (Tr.Date.from_ymd_unchecked_safe ((fun (self : Int) => let t1 : Int × Int × Int := Tr.Date.extract self; let year : Int := t1.1; year) self) 1 1)
+
+/-- `timestamp.rs::Trunc for Timestamp::trunc_year` (timestamp.rs:234), body sha1 8aeaddd2ebf1 -/
+def Timestamp.trunc_year (self : Int) : Chk Int :=
+  match Tr.Date.trunc_year (Tr.Timestamp.date self) with
+  | Except.error err => Except.error err
+  | Except.ok r1 => Except.ok (Tr.Date.and_zero_time r1)
+
+/-- No arithmetic node of `timestamp.rs::Trunc for Timestamp::trunc_year` leaves its Rust integer type, no division by zero, no index out of range
+    (path-sensitive; calls contribute the callee's predicate). -/
+def Timestamp.trunc_year_safe (self : Int) : Prop :=
+  Tr.Timestamp.date_safe self ∧
+  Tr.Date.trunc_year_safe (Tr.Timestamp.date self) ∧
+  (match Tr.Date.trunc_year (Tr.Timestamp.date self) with
+   | Except.error err => True
+   | Except.ok r1 => Tr.Date.and_zero_time_safe r1)
+
+/-- `oracle.rs::Trunc for OracleDate::trunc_year` (oracle.rs:195), body sha1 99e94a38064f -/
+def OracleDate.trunc_year (self : Int) : Chk Int :=
+  match Tr.Timestamp.trunc_year self with
+  | Except.error err => Except.error err
+  | Except.ok r1 => Except.ok (Tr.OracleDate.from_timestamp r1)
+
+/-- No arithmetic node of `oracle.rs::Trunc for OracleDate::trunc_year` leaves its Rust integer type, no division by zero, no index out of range
+    (path-sensitive; calls contribute the callee's predicate). -/
+def OracleDate.trunc_year_safe (self : Int) : Prop :=
+  Tr.Timestamp.trunc_year_safe self ∧
+  (match Tr.Timestamp.trunc_year self with
+   | Except.error err => True
+   | Except.ok r1 => Tr.OracleDate.from_timestamp_safe r1)
+
+/-- `date.rs::Trunc for Date::trunc_iso_year` (date.rs:468), body sha1 2d1d5d8766e4 -/
+def Date.trunc_iso_year (self : Int) : Chk Int :=
+  -- date.rs:469: let iso_year = self.date_to_iso_year();
+  let iso_year : Int := Tr.Date.date_to_iso_year self
+  -- date.rs:470: let first_date = { Date::from_ymd_unchecked(iso_year, 1, 1) };
+  let first_date : Int := Tr.Date.from_ymd_unchecked iso_year 1 1
+  -- date.rs:471: let week_day = first_date.day_of_week() as usize;
+  let week_day : Int := Tr.Date.day_of_week first_date
+  -- date.rs:472: let (to_first_date_of_week, remain_day) = ISO_YEAR_TABLE[week_day];
+  let to_first_date_of_week_remain_day : Bool × Int := idxD ISO_YEAR_TABLE week_day (false, 0)
+  let to_first_date_of_week : Bool := to_first_date_of_week_remain_day.1
+  let remain_day : Int := to_first_date_of_week_remain_day.2
+  if to_first_date_of_week = true then
+    Tr.sub_to_date first_date remain_day
+  else
+    Tr.current_date first_date remain_day
+
+/-- No arithmetic node of `date.rs::Trunc for Date::trunc_iso_year` leaves its Rust integer type, no division by zero, no index out of range
+    (path-sensitive; calls contribute the callee's predicate). -/
+def Date.trunc_iso_year_safe (self : Int) : Prop :=
+  Tr.Date.date_to_iso_year_safe self ∧
+  let iso_year : Int := Tr.Date.date_to_iso_year self
+  Tr.Date.from_ymd_unchecked_safe iso_year 1 1 ∧
+  let first_date : Int := Tr.Date.from_ymd_unchecked iso_year 1 1
+  Tr.Date.day_of_week_safe first_date ∧
+  let week_day : Int := Tr.Date.day_of_week first_date
+  0 ≤ week_day ∧
+  week_day < 8 ∧
+  let to_first_date_of_week_remain_day : Bool × Int := idxD ISO_YEAR_TABLE week_day (false, 0)
+  let to_first_date_of_week : Bool := to_first_date_of_week_remain_day.1
+  let remain_day : Int := to_first_date_of_week_remain_day.2
+  (to_first_date_of_week = true → Tr.sub_to_date_safe first_date remain_day) ∧
+  (¬ to_first_date_of_week = true → Tr.current_date_safe first_date remain_day)
+
+/-- `timestamp.rs::Trunc for Timestamp::trunc_iso_year` (timestamp.rs:239), body sha1 3fe4ec971f06 -/
+def Timestamp.trunc_iso_year (self : Int) : Chk Int :=
+  match Tr.Date.trunc_iso_year (Tr.Timestamp.date self) with
+  | Except.error err => Except.error err
+  | Except.ok r1 => Except.ok (Tr.Date.and_zero_time r1)
+
+/-- No arithmetic node of `timestamp.rs::Trunc for Timestamp::trunc_iso_year` leaves its Rust integer type, no division by zero, no index out of range
+    (path-sensitive; calls contribute the callee's predicate). -/
+def Timestamp.trunc_iso_year_safe (self : Int) : Prop :=
+  Tr.Timestamp.date_safe self ∧
+  Tr.Date.trunc_iso_year_safe (Tr.Timestamp.date self) ∧
+  (match Tr.Date.trunc_iso_year (Tr.Timestamp.date self) with
+   | Except.error err => True
+   | Except.ok r1 => Tr.Date.and_zero_time_safe r1)
+
+/-- `oracle.rs::Trunc for OracleDate::trunc_iso_year` (oracle.rs:200), body sha1 c5841d20c7f8 -/
+def OracleDate.trunc_iso_year (self : Int) : Chk Int :=
+  match Tr.Timestamp.trunc_iso_year self with
+  | Except.error err => Except.error err
+  | Except.ok r1 => Except.ok (Tr.OracleDate.from_timestamp r1)
+
+/-- No arithmetic node of `oracle.rs::Trunc for OracleDate::trunc_iso_year` leaves its Rust integer type, no division by zero, no index out of range
+    (path-sensitive; calls contribute the callee's predicate). -/
+def OracleDate.trunc_iso_year_safe (self : Int) : Prop :=
+  Tr.Timestamp.trunc_iso_year_safe self ∧
+  (match Tr.Timestamp.trunc_iso_year self with
+   | Except.error err => True
+   | Except.ok r1 => Tr.OracleDate.from_timestamp_safe r1)
 
 /-- `date.rs::Trunc for Date::trunc_quarter` (date.rs:477), body sha1 cd9b00ea0e1d -/
 def Date.trunc_quarter (self : Int) : Chk Int :=
@@ -2220,6 +2462,35 @@ def Date.trunc_quarter_safe (self : Int) : Prop :=
   let quarter_month : Int := idxD QUARTER_FIRST_MONTH (month - 1) 0
   Tr.Date.from_ymd_unchecked_safe year quarter_month 1
 
+/-- `timestamp.rs::Trunc for Timestamp::trunc_quarter` (timestamp.rs:244), body sha1 d5f8b7fbedc2 -/
+def Timestamp.trunc_quarter (self : Int) : Chk Int :=
+  match Tr.Date.trunc_quarter (Tr.Timestamp.date self) with
+  | Except.error err => Except.error err
+  | Except.ok r1 => Except.ok (Tr.Date.and_zero_time r1)
+
+/-- No arithmetic node of `timestamp.rs::Trunc for Timestamp::trunc_quarter` leaves its Rust integer type, no division by zero, no index out of range
+    (path-sensitive; calls contribute the callee's predicate). -/
+def Timestamp.trunc_quarter_safe (self : Int) : Prop :=
+  Tr.Timestamp.date_safe self ∧
+  Tr.Date.trunc_quarter_safe (Tr.Timestamp.date self) ∧
+  (match Tr.Date.trunc_quarter (Tr.Timestamp.date self) with
+   | Except.error err => True
+   | Except.ok r1 => Tr.Date.and_zero_time_safe r1)
+
+/-- `oracle.rs::Trunc for OracleDate::trunc_quarter` (oracle.rs:205), body sha1 270dbf18a4ee -/
+def OracleDate.trunc_quarter (self : Int) : Chk Int :=
+  match Tr.Timestamp.trunc_quarter self with
+  | Except.error err => Except.error err
+  | Except.ok r1 => Except.ok (Tr.OracleDate.from_timestamp r1)
+
+/-- No arithmetic node of `oracle.rs::Trunc for OracleDate::trunc_quarter` leaves its Rust integer type, no division by zero, no index out of range
+    (path-sensitive; calls contribute the callee's predicate). -/
+def OracleDate.trunc_quarter_safe (self : Int) : Prop :=
+  Tr.Timestamp.trunc_quarter_safe self ∧
+  (match Tr.Timestamp.trunc_quarter self with
+   | Except.error err => True
+   | Except.ok r1 => Tr.OracleDate.from_timestamp_safe r1)
+
 /-- `date.rs::Trunc for Date::trunc_month` (date.rs:487), body sha1 72100addc94c -/
 def Date.trunc_month (self : Int) : Chk Int :=
   -- date.rs:488: let (year, month, _) = self.extract();
@@ -2236,6 +2507,35 @@ def Date.trunc_month_safe (self : Int) : Prop :=
   let year : Int := year_month.1
   let month : Int := year_month.2.1
   Tr.Date.from_ymd_unchecked_safe year month 1
+
+/-- `timestamp.rs::Trunc for Timestamp::trunc_month` (timestamp.rs:249), body sha1 71a055e3b107 -/
+def Timestamp.trunc_month (self : Int) : Chk Int :=
+  match Tr.Date.trunc_month (Tr.Timestamp.date self) with
+  | Except.error err => Except.error err
+  | Except.ok r1 => Except.ok (Tr.Date.and_zero_time r1)
+
+/-- No arithmetic node of `timestamp.rs::Trunc for Timestamp::trunc_month` leaves its Rust integer type, no division by zero, no index out of range
+    (path-sensitive; calls contribute the callee's predicate). -/
+def Timestamp.trunc_month_safe (self : Int) : Prop :=
+  Tr.Timestamp.date_safe self ∧
+  Tr.Date.trunc_month_safe (Tr.Timestamp.date self) ∧
+  (match Tr.Date.trunc_month (Tr.Timestamp.date self) with
+   | Except.error err => True
+   | Except.ok r1 => Tr.Date.and_zero_time_safe r1)
+
+/-- `oracle.rs::Trunc for OracleDate::trunc_month` (oracle.rs:210), body sha1 a747e9d97220 -/
+def OracleDate.trunc_month (self : Int) : Chk Int :=
+  match Tr.Timestamp.trunc_month self with
+  | Except.error err => Except.error err
+  | Except.ok r1 => Except.ok (Tr.OracleDate.from_timestamp r1)
+
+/-- No arithmetic node of `oracle.rs::Trunc for OracleDate::trunc_month` leaves its Rust integer type, no division by zero, no index out of range
+    (path-sensitive; calls contribute the callee's predicate). -/
+def OracleDate.trunc_month_safe (self : Int) : Prop :=
+  Tr.Timestamp.trunc_month_safe self ∧
+  (match Tr.Timestamp.trunc_month self with
+   | Except.error err => True
+   | Except.ok r1 => Tr.OracleDate.from_timestamp_safe r1)
 
 /-- `date.rs::Trunc for Date::trunc_week` (date.rs:493), body sha1 097a9672699e -/
 -- inlined helpers: date.rs::DateTime for Date::year
@@ -2259,6 +2559,35 @@ def Date.trunc_week_safe (self : Int) : Prop :=
   let trunc_day : Int :=
     rrem (Tr.Date.sub_date self (Tr.Date.from_ymd_unchecked ((fun (self : Int) => let t1 : Int × Int × Int := Tr.Date.extract self; let year : Int := t1.1; year) self) 1 1)) 7
   Tr.Date.sub_days_safe self trunc_day
+
+/-- `timestamp.rs::Trunc for Timestamp::trunc_week` (timestamp.rs:254), body sha1 70e64fa8dbc1 -/
+def Timestamp.trunc_week (self : Int) : Chk Int :=
+  match Tr.Date.trunc_week (Tr.Timestamp.date self) with
+  | Except.error err => Except.error err
+  | Except.ok r1 => Except.ok (Tr.Date.and_zero_time r1)
+
+/-- No arithmetic node of `timestamp.rs::Trunc for Timestamp::trunc_week` leaves its Rust integer type, no division by zero, no index out of range
+    (path-sensitive; calls contribute the callee's predicate). -/
+def Timestamp.trunc_week_safe (self : Int) : Prop :=
+  Tr.Timestamp.date_safe self ∧
+  Tr.Date.trunc_week_safe (Tr.Timestamp.date self) ∧
+  (match Tr.Date.trunc_week (Tr.Timestamp.date self) with
+   | Except.error err => True
+   | Except.ok r1 => Tr.Date.and_zero_time_safe r1)
+
+/-- `oracle.rs::Trunc for OracleDate::trunc_week` (oracle.rs:215), body sha1 b88c651e8dc8 -/
+def OracleDate.trunc_week (self : Int) : Chk Int :=
+  match Tr.Timestamp.trunc_week self with
+  | Except.error err => Except.error err
+  | Except.ok r1 => Except.ok (Tr.OracleDate.from_timestamp r1)
+
+/-- No arithmetic node of `oracle.rs::Trunc for OracleDate::trunc_week` leaves its Rust integer type, no division by zero, no index out of range
+    (path-sensitive; calls contribute the callee's predicate). -/
+def OracleDate.trunc_week_safe (self : Int) : Prop :=
+  Tr.Timestamp.trunc_week_safe self ∧
+  (match Tr.Timestamp.trunc_week self with
+   | Except.error err => True
+   | Except.ok r1 => Tr.OracleDate.from_timestamp_safe r1)
 
 /-- `date.rs::Trunc for Date::trunc_iso_week` (date.rs:501), body sha1 96c7f86a1711 -/
 def Date.trunc_iso_week (self : Int) : Chk Int :=
@@ -2288,6 +2617,35 @@ def Date.trunc_iso_week_safe (self : Int) : Prop :=
   (to_first_date_of_week = true → Tr.sub_to_date_safe self remain_day) ∧
   (¬ to_first_date_of_week = true → Tr.current_date_safe self remain_day)
 
+/-- `timestamp.rs::Trunc for Timestamp::trunc_iso_week` (timestamp.rs:259), body sha1 81adfb1116ec -/
+def Timestamp.trunc_iso_week (self : Int) : Chk Int :=
+  match Tr.Date.trunc_iso_week (Tr.Timestamp.date self) with
+  | Except.error err => Except.error err
+  | Except.ok r1 => Except.ok (Tr.Date.and_zero_time r1)
+
+/-- No arithmetic node of `timestamp.rs::Trunc for Timestamp::trunc_iso_week` leaves its Rust integer type, no division by zero, no index out of range
+    (path-sensitive; calls contribute the callee's predicate). -/
+def Timestamp.trunc_iso_week_safe (self : Int) : Prop :=
+  Tr.Timestamp.date_safe self ∧
+  Tr.Date.trunc_iso_week_safe (Tr.Timestamp.date self) ∧
+  (match Tr.Date.trunc_iso_week (Tr.Timestamp.date self) with
+   | Except.error err => True
+   | Except.ok r1 => Tr.Date.and_zero_time_safe r1)
+
+/-- `oracle.rs::Trunc for OracleDate::trunc_iso_week` (oracle.rs:220), body sha1 d184c312d899 -/
+def OracleDate.trunc_iso_week (self : Int) : Chk Int :=
+  match Tr.Timestamp.trunc_iso_week self with
+  | Except.error err => Except.error err
+  | Except.ok r1 => Except.ok (Tr.OracleDate.from_timestamp r1)
+
+/-- No arithmetic node of `oracle.rs::Trunc for OracleDate::trunc_iso_week` leaves its Rust integer type, no division by zero, no index out of range
+    (path-sensitive; calls contribute the callee's predicate). -/
+def OracleDate.trunc_iso_week_safe (self : Int) : Prop :=
+  Tr.Timestamp.trunc_iso_week_safe self ∧
+  (match Tr.Timestamp.trunc_iso_week self with
+   | Except.error err => True
+   | Except.ok r1 => Tr.OracleDate.from_timestamp_safe r1)
+
 /-- `date.rs::Trunc for Date::trunc_month_start_week` (date.rs:519), body sha1 e5fad7e3023e -/
 -- inlined helpers: date.rs::DateTime for Date::day
 def Date.trunc_month_start_week (self : Int) : Chk Int :=
@@ -2313,6 +2671,35 @@ def Date.trunc_month_start_week_safe (self : Int) : Prop :=
   let trunc_day : Int := if remain_day = 0 then 6 else remain_day - 1
   Tr.Date.sub_days_safe self trunc_day
 
+/-- `timestamp.rs::Trunc for Timestamp::trunc_month_start_week` (timestamp.rs:264), body sha1 3204ffb7d701 -/
+def Timestamp.trunc_month_start_week (self : Int) : Chk Int :=
+  match Tr.Date.trunc_month_start_week (Tr.Timestamp.date self) with
+  | Except.error err => Except.error err
+  | Except.ok r1 => Except.ok (Tr.Date.and_zero_time r1)
+
+/-- No arithmetic node of `timestamp.rs::Trunc for Timestamp::trunc_month_start_week` leaves its Rust integer type, no division by zero, no index out of range
+    (path-sensitive; calls contribute the callee's predicate). -/
+def Timestamp.trunc_month_start_week_safe (self : Int) : Prop :=
+  Tr.Timestamp.date_safe self ∧
+  Tr.Date.trunc_month_start_week_safe (Tr.Timestamp.date self) ∧
+  (match Tr.Date.trunc_month_start_week (Tr.Timestamp.date self) with
+   | Except.error err => True
+   | Except.ok r1 => Tr.Date.and_zero_time_safe r1)
+
+/-- `oracle.rs::Trunc for OracleDate::trunc_month_start_week` (oracle.rs:225), body sha1 475f956b5ad3 -/
+def OracleDate.trunc_month_start_week (self : Int) : Chk Int :=
+  match Tr.Timestamp.trunc_month_start_week self with
+  | Except.error err => Except.error err
+  | Except.ok r1 => Except.ok (Tr.OracleDate.from_timestamp r1)
+
+/-- No arithmetic node of `oracle.rs::Trunc for OracleDate::trunc_month_start_week` leaves its Rust integer type, no division by zero, no index out of range
+    (path-sensitive; calls contribute the callee's predicate). -/
+def OracleDate.trunc_month_start_week_safe (self : Int) : Prop :=
+  Tr.Timestamp.trunc_month_start_week_safe self ∧
+  (match Tr.Timestamp.trunc_month_start_week self with
+   | Except.error err => True
+   | Except.ok r1 => Tr.OracleDate.from_timestamp_safe r1)
+
 /-- `date.rs::Trunc for Date::trunc_day` (date.rs:527), body sha1 77e10b773168 -/
 def Date.trunc_day (self : Int) : Chk Int :=
   Except.ok self
@@ -2321,6 +2708,20 @@ def Date.trunc_day (self : Int) : Chk Int :=
     (path-sensitive; calls contribute the callee's predicate). -/
 def Date.trunc_day_safe (self : Int) : Prop :=
   True
+
+/-- `oracle.rs::Trunc for OracleDate::trunc_day` (oracle.rs:230), body sha1 4713f5482522 -/
+def OracleDate.trunc_day (self : Int) : Chk Int :=
+  match Tr.Timestamp.trunc_day self with
+  | Except.error err => Except.error err
+  | Except.ok r1 => Except.ok (Tr.OracleDate.from_timestamp r1)
+
+/-- No arithmetic node of `oracle.rs::Trunc for OracleDate::trunc_day` leaves its Rust integer type, no division by zero, no index out of range
+    (path-sensitive; calls contribute the callee's predicate). -/
+def OracleDate.trunc_day_safe (self : Int) : Prop :=
+  Tr.Timestamp.trunc_day_safe self ∧
+  (match Tr.Timestamp.trunc_day self with
+   | Except.error err => True
+   | Except.ok r1 => Tr.OracleDate.from_timestamp_safe r1)
 
 /-- `date.rs::Trunc for Date::trunc_sunday_start_week` (date.rs:532), body sha1 b9658a6798be -/
 def Date.trunc_sunday_start_week (self : Int) : Chk Int :=
@@ -2338,6 +2739,35 @@ def Date.trunc_sunday_start_week_safe (self : Int) : Prop :=
   fitsI32 (Tr.Date.day_of_week self - 1) ∧
   Tr.Date.sub_days_safe self (Tr.Date.day_of_week self - 1)
 
+/-- `timestamp.rs::Trunc for Timestamp::trunc_sunday_start_week` (timestamp.rs:274), body sha1 31c7237a7611 -/
+def Timestamp.trunc_sunday_start_week (self : Int) : Chk Int :=
+  match Tr.Date.trunc_sunday_start_week (Tr.Timestamp.date self) with
+  | Except.error err => Except.error err
+  | Except.ok r1 => Except.ok (Tr.Date.and_zero_time r1)
+
+/-- No arithmetic node of `timestamp.rs::Trunc for Timestamp::trunc_sunday_start_week` leaves its Rust integer type, no division by zero, no index out of range
+    (path-sensitive; calls contribute the callee's predicate). -/
+def Timestamp.trunc_sunday_start_week_safe (self : Int) : Prop :=
+  Tr.Timestamp.date_safe self ∧
+  Tr.Date.trunc_sunday_start_week_safe (Tr.Timestamp.date self) ∧
+  (match Tr.Date.trunc_sunday_start_week (Tr.Timestamp.date self) with
+   | Except.error err => True
+   | Except.ok r1 => Tr.Date.and_zero_time_safe r1)
+
+/-- `oracle.rs::Trunc for OracleDate::trunc_sunday_start_week` (oracle.rs:235), body sha1 437f00478ddf -/
+def OracleDate.trunc_sunday_start_week (self : Int) : Chk Int :=
+  match Tr.Timestamp.trunc_sunday_start_week self with
+  | Except.error err => Except.error err
+  | Except.ok r1 => Except.ok (Tr.OracleDate.from_timestamp r1)
+
+/-- No arithmetic node of `oracle.rs::Trunc for OracleDate::trunc_sunday_start_week` leaves its Rust integer type, no division by zero, no index out of range
+    (path-sensitive; calls contribute the callee's predicate). -/
+def OracleDate.trunc_sunday_start_week_safe (self : Int) : Prop :=
+  Tr.Timestamp.trunc_sunday_start_week_safe self ∧
+  (match Tr.Timestamp.trunc_sunday_start_week self with
+   | Except.error err => True
+   | Except.ok r1 => Tr.OracleDate.from_timestamp_safe r1)
+
 /-- `date.rs::Trunc for Date::trunc_hour` (date.rs:538), body sha1 77e10b773168 -/
 def Date.trunc_hour (self : Int) : Chk Int :=
   Except.ok self
@@ -2347,6 +2777,20 @@ def Date.trunc_hour (self : Int) : Chk Int :=
 def Date.trunc_hour_safe (self : Int) : Prop :=
   True
 
+/-- `oracle.rs::Trunc for OracleDate::trunc_hour` (oracle.rs:240), body sha1 cd0c7b88030b -/
+def OracleDate.trunc_hour (self : Int) : Chk Int :=
+  match Tr.Timestamp.trunc_hour self with
+  | Except.error err => Except.error err
+  | Except.ok r1 => Except.ok (Tr.OracleDate.from_timestamp r1)
+
+/-- No arithmetic node of `oracle.rs::Trunc for OracleDate::trunc_hour` leaves its Rust integer type, no division by zero, no index out of range
+    (path-sensitive; calls contribute the callee's predicate). -/
+def OracleDate.trunc_hour_safe (self : Int) : Prop :=
+  Tr.Timestamp.trunc_hour_safe self ∧
+  (match Tr.Timestamp.trunc_hour self with
+   | Except.error err => True
+   | Except.ok r1 => Tr.OracleDate.from_timestamp_safe r1)
+
 /-- `date.rs::Trunc for Date::trunc_minute` (date.rs:543), body sha1 77e10b773168 -/
 def Date.trunc_minute (self : Int) : Chk Int :=
   Except.ok self
@@ -2355,6 +2799,20 @@ def Date.trunc_minute (self : Int) : Chk Int :=
     (path-sensitive; calls contribute the callee's predicate). -/
 def Date.trunc_minute_safe (self : Int) : Prop :=
   True
+
+/-- `oracle.rs::Trunc for OracleDate::trunc_minute` (oracle.rs:245), body sha1 e721738e03f7 -/
+def OracleDate.trunc_minute (self : Int) : Chk Int :=
+  match Tr.Timestamp.trunc_minute self with
+  | Except.error err => Except.error err
+  | Except.ok r1 => Except.ok (Tr.OracleDate.from_timestamp r1)
+
+/-- No arithmetic node of `oracle.rs::Trunc for OracleDate::trunc_minute` leaves its Rust integer type, no division by zero, no index out of range
+    (path-sensitive; calls contribute the callee's predicate). -/
+def OracleDate.trunc_minute_safe (self : Int) : Prop :=
+  Tr.Timestamp.trunc_minute_safe self ∧
+  (match Tr.Timestamp.trunc_minute self with
+   | Except.error err => True
+   | Except.ok r1 => Tr.OracleDate.from_timestamp_safe r1)
 
 /-- `date.rs::Round for Date::round_century` (date.rs:560), body sha1 e210c0b6b268 -/
 -- inlined helpers: date.rs::DateTime for Date::year
@@ -2418,6 +2876,35 @@ def Date.round_century_safe (self : Int) : Prop :=
     let res_year : Int := century * 100 + 1
     Tr.Date.from_ymd_unchecked_safe res_year 1 1)
 
+/-- `timestamp.rs::Round for Timestamp::round_century` (timestamp.rs:296), body sha1 f4118cc3c45c -/
+def Timestamp.round_century (self : Int) : Chk Int :=
+  match Tr.Date.round_century (Tr.Timestamp.date self) with
+  | Except.error err => Except.error err
+  | Except.ok r1 => Except.ok (Tr.Date.and_zero_time r1)
+
+/-- No arithmetic node of `timestamp.rs::Round for Timestamp::round_century` leaves its Rust integer type, no division by zero, no index out of range
+    (path-sensitive; calls contribute the callee's predicate). -/
+def Timestamp.round_century_safe (self : Int) : Prop :=
+  Tr.Timestamp.date_safe self ∧
+  Tr.Date.round_century_safe (Tr.Timestamp.date self) ∧
+  (match Tr.Date.round_century (Tr.Timestamp.date self) with
+   | Except.error err => True
+   | Except.ok r1 => Tr.Date.and_zero_time_safe r1)
+
+/-- `oracle.rs::Round for OracleDate::round_century` (oracle.rs:252), body sha1 56d1e885dbc1 -/
+def OracleDate.round_century (self : Int) : Chk Int :=
+  match Tr.Timestamp.round_century self with
+  | Except.error err => Except.error err
+  | Except.ok r1 => Except.ok (Tr.OracleDate.from_timestamp r1)
+
+/-- No arithmetic node of `oracle.rs::Round for OracleDate::round_century` leaves its Rust integer type, no division by zero, no index out of range
+    (path-sensitive; calls contribute the callee's predicate). -/
+def OracleDate.round_century_safe (self : Int) : Prop :=
+  Tr.Timestamp.round_century_safe self ∧
+  (match Tr.Timestamp.round_century self with
+   | Except.error err => True
+   | Except.ok r1 => Tr.OracleDate.from_timestamp_safe r1)
+
 /-- `date.rs::Round for Date::round_year` (date.rs:578), body sha1 111354e617d7 -/
 def Date.round_year (self : Int) : Chk Int :=
   -- date.rs:579: let (mut year, month, _) = self.extract();
@@ -2450,6 +2937,101 @@ def Date.round_year_safe (self : Int) : Prop :=
       let year : Int := year + 1
       Tr.Date.from_ymd_unchecked_safe year 1 1)) ∧
   (¬ month ≥ 7 → Tr.Date.from_ymd_unchecked_safe year 1 1)
+
+/-- `timestamp.rs::Round for Timestamp::round_year` (timestamp.rs:301), body sha1 4bc84285ad9e -/
+def Timestamp.round_year (self : Int) : Chk Int :=
+  match Tr.Date.round_year (Tr.Timestamp.date self) with
+  | Except.error err => Except.error err
+  | Except.ok r1 => Except.ok (Tr.Date.and_zero_time r1)
+
+/-- No arithmetic node of `timestamp.rs::Round for Timestamp::round_year` leaves its Rust integer type, no division by zero, no index out of range
+    (path-sensitive; calls contribute the callee's predicate). -/
+def Timestamp.round_year_safe (self : Int) : Prop :=
+  Tr.Timestamp.date_safe self ∧
+  Tr.Date.round_year_safe (Tr.Timestamp.date self) ∧
+  (match Tr.Date.round_year (Tr.Timestamp.date self) with
+   | Except.error err => True
+   | Except.ok r1 => Tr.Date.and_zero_time_safe r1)
+
+/-- `oracle.rs::Round for OracleDate::round_year` (oracle.rs:257), body sha1 109c5c89de0c -/
+def OracleDate.round_year (self : Int) : Chk Int :=
+  match Tr.Timestamp.round_year self with
+  | Except.error err => Except.error err
+  | Except.ok r1 => Except.ok (Tr.OracleDate.from_timestamp r1)
+
+/-- No arithmetic node of `oracle.rs::Round for OracleDate::round_year` leaves its Rust integer type, no division by zero, no index out of range
+    (path-sensitive; calls contribute the callee's predicate). -/
+def OracleDate.round_year_safe (self : Int) : Prop :=
+  Tr.Timestamp.round_year_safe self ∧
+  (match Tr.Timestamp.round_year self with
+   | Except.error err => True
+   | Except.ok r1 => Tr.OracleDate.from_timestamp_safe r1)
+
+/-- `date.rs::Round for Date::round_iso_year` (date.rs:590), body sha1 506265c48629 -/
+def Date.round_iso_year (self : Int) : Chk Int :=
+  -- date.rs:591: let (year, month, _) = self.extract();
+  let year_month : Int × Int × Int := Tr.Date.extract self
+  let year : Int := year_month.1
+  let month : Int := year_month.2.1
+  -- date.rs:592: let mut date = self;
+  let date : Int := self
+  -- date.rs:593: if month >= 7 {
+  if month ≥ 7 then
+    -- date.rs:594: if year == DATE_MAX_YEAR {
+    if year = DATE_MAX_YEAR then
+      -- date.rs:595: return Err(Error::DateOutOfRange);
+      Except.error Err.DateOutOfRange
+    else
+      -- date.rs:598: date = { Date::from_ymd_unchecked(year + 1, 1, 4) };
+      let date : Int := Tr.Date.from_ymd_unchecked (year + 1) 1 4
+      Tr.Date.trunc_iso_year date
+  else
+    Tr.Date.trunc_iso_year date
+
+/-- No arithmetic node of `date.rs::Round for Date::round_iso_year` leaves its Rust integer type, no division by zero, no index out of range
+    (path-sensitive; calls contribute the callee's predicate). -/
+def Date.round_iso_year_safe (self : Int) : Prop :=
+  Tr.Date.extract_safe self ∧
+  let year_month : Int × Int × Int := Tr.Date.extract self
+  let year : Int := year_month.1
+  let month : Int := year_month.2.1
+  let date : Int := self
+  (month ≥ 7 →
+    (¬ year = DATE_MAX_YEAR →
+      fitsI32 (year + 1) ∧
+      Tr.Date.from_ymd_unchecked_safe (year + 1) 1 4 ∧
+      let date : Int := Tr.Date.from_ymd_unchecked (year + 1) 1 4
+      Tr.Date.trunc_iso_year_safe date)) ∧
+  (¬ month ≥ 7 → Tr.Date.trunc_iso_year_safe date)
+
+/-- `timestamp.rs::Round for Timestamp::round_iso_year` (timestamp.rs:306), body sha1 37958209f9a8 -/
+def Timestamp.round_iso_year (self : Int) : Chk Int :=
+  match Tr.Date.round_iso_year (Tr.Timestamp.date self) with
+  | Except.error err => Except.error err
+  | Except.ok r1 => Except.ok (Tr.Date.and_zero_time r1)
+
+/-- No arithmetic node of `timestamp.rs::Round for Timestamp::round_iso_year` leaves its Rust integer type, no division by zero, no index out of range
+    (path-sensitive; calls contribute the callee's predicate). -/
+def Timestamp.round_iso_year_safe (self : Int) : Prop :=
+  Tr.Timestamp.date_safe self ∧
+  Tr.Date.round_iso_year_safe (Tr.Timestamp.date self) ∧
+  (match Tr.Date.round_iso_year (Tr.Timestamp.date self) with
+   | Except.error err => True
+   | Except.ok r1 => Tr.Date.and_zero_time_safe r1)
+
+/-- `oracle.rs::Round for OracleDate::round_iso_year` (oracle.rs:262), body sha1 a8487c8396f5 -/
+def OracleDate.round_iso_year (self : Int) : Chk Int :=
+  match Tr.Timestamp.round_iso_year self with
+  | Except.error err => Except.error err
+  | Except.ok r1 => Except.ok (Tr.OracleDate.from_timestamp r1)
+
+/-- No arithmetic node of `oracle.rs::Round for OracleDate::round_iso_year` leaves its Rust integer type, no division by zero, no index out of range
+    (path-sensitive; calls contribute the callee's predicate). -/
+def OracleDate.round_iso_year_safe (self : Int) : Prop :=
+  Tr.Timestamp.round_iso_year_safe self ∧
+  (match Tr.Timestamp.round_iso_year self with
+   | Except.error err => True
+   | Except.ok r1 => Tr.OracleDate.from_timestamp_safe r1)
 
 /-- `date.rs::Round for Date::round_quarter` (date.rs:604), body sha1 97bfa585e2e7 -/
 def Date.round_quarter (self : Int) : Chk Int :=
@@ -2555,6 +3137,35 @@ def Date.round_quarter_safe (self : Int) : Prop :=
   let year : Int := quarter_month_year.2
   ¬ year > DATE_MAX_YEAR → Tr.Date.from_ymd_unchecked_safe year quarter_month 1
 
+/-- `timestamp.rs::Round for Timestamp::round_quarter` (timestamp.rs:311), body sha1 8706d8555200 -/
+def Timestamp.round_quarter (self : Int) : Chk Int :=
+  match Tr.Date.round_quarter (Tr.Timestamp.date self) with
+  | Except.error err => Except.error err
+  | Except.ok r1 => Except.ok (Tr.Date.and_zero_time r1)
+
+/-- No arithmetic node of `timestamp.rs::Round for Timestamp::round_quarter` leaves its Rust integer type, no division by zero, no index out of range
+    (path-sensitive; calls contribute the callee's predicate). -/
+def Timestamp.round_quarter_safe (self : Int) : Prop :=
+  Tr.Timestamp.date_safe self ∧
+  Tr.Date.round_quarter_safe (Tr.Timestamp.date self) ∧
+  (match Tr.Date.round_quarter (Tr.Timestamp.date self) with
+   | Except.error err => True
+   | Except.ok r1 => Tr.Date.and_zero_time_safe r1)
+
+/-- `oracle.rs::Round for OracleDate::round_quarter` (oracle.rs:267), body sha1 56e9db780dd4 -/
+def OracleDate.round_quarter (self : Int) : Chk Int :=
+  match Tr.Timestamp.round_quarter self with
+  | Except.error err => Except.error err
+  | Except.ok r1 => Except.ok (Tr.OracleDate.from_timestamp r1)
+
+/-- No arithmetic node of `oracle.rs::Round for OracleDate::round_quarter` leaves its Rust integer type, no division by zero, no index out of range
+    (path-sensitive; calls contribute the callee's predicate). -/
+def OracleDate.round_quarter_safe (self : Int) : Prop :=
+  Tr.Timestamp.round_quarter_safe self ∧
+  (match Tr.Timestamp.round_quarter self with
+   | Except.error err => True
+   | Except.ok r1 => Tr.OracleDate.from_timestamp_safe r1)
+
 /-- `date.rs::Round for Date::round_month` (date.rs:632), body sha1 772e386c966b -/
 def Date.round_month (self : Int) : Chk Int :=
   -- date.rs:633: let (mut year, mut month, day) = self.extract();
@@ -2603,6 +3214,35 @@ def Date.round_month_safe (self : Int) : Prop :=
       Tr.Date.from_ymd_unchecked_safe year month 1)) ∧
   (¬ day ≥ ROUNDS_UP_DAY → Tr.Date.from_ymd_unchecked_safe year month 1)
 
+/-- `timestamp.rs::Round for Timestamp::round_month` (timestamp.rs:316), body sha1 ed885a40a955 -/
+def Timestamp.round_month (self : Int) : Chk Int :=
+  match Tr.Date.round_month (Tr.Timestamp.date self) with
+  | Except.error err => Except.error err
+  | Except.ok r1 => Except.ok (Tr.Date.and_zero_time r1)
+
+/-- No arithmetic node of `timestamp.rs::Round for Timestamp::round_month` leaves its Rust integer type, no division by zero, no index out of range
+    (path-sensitive; calls contribute the callee's predicate). -/
+def Timestamp.round_month_safe (self : Int) : Prop :=
+  Tr.Timestamp.date_safe self ∧
+  Tr.Date.round_month_safe (Tr.Timestamp.date self) ∧
+  (match Tr.Date.round_month (Tr.Timestamp.date self) with
+   | Except.error err => True
+   | Except.ok r1 => Tr.Date.and_zero_time_safe r1)
+
+/-- `oracle.rs::Round for OracleDate::round_month` (oracle.rs:272), body sha1 ca0ede669816 -/
+def OracleDate.round_month (self : Int) : Chk Int :=
+  match Tr.Timestamp.round_month self with
+  | Except.error err => Except.error err
+  | Except.ok r1 => Except.ok (Tr.OracleDate.from_timestamp r1)
+
+/-- No arithmetic node of `oracle.rs::Round for OracleDate::round_month` leaves its Rust integer type, no division by zero, no index out of range
+    (path-sensitive; calls contribute the callee's predicate). -/
+def OracleDate.round_month_safe (self : Int) : Prop :=
+  Tr.Timestamp.round_month_safe self ∧
+  (match Tr.Timestamp.round_month self with
+   | Except.error err => True
+   | Except.ok r1 => Tr.OracleDate.from_timestamp_safe r1)
+
 /-- `date.rs::Round for Date::round_week` (date.rs:649), body sha1 7e5368b46b38 -/
 -- inlined helpers: date.rs::DateTime for Date::year
 def Date.round_week (self : Int) : Chk Int :=
@@ -2613,6 +3253,73 @@ def Date.round_week (self : Int) : Chk Int :=
 def Date.round_week_safe (self : Int) : Prop :=
   (fun (self : Int) => Tr.Date.extract_safe self) self ∧
   (Tr.Date.round_week_internal_safe self ((fun (self : Int) => let t1 : Int × Int × Int := Tr.Date.extract self; let year : Int := t1.1; year) self))
+
+/-- `timestamp.rs::Round for Timestamp::round_week` (timestamp.rs:321), body sha1 08f4d1f53216 -/
+-- inlined helpers: time.rs::DateTime for Time::hour
+def Timestamp.round_week (self : Int) : Chk Int :=
+  -- timestamp.rs:322: let (mut date, time) = self.extract();
+  let date_time : Int × Int := Tr.Timestamp.extract self
+  let date : Int := date_time.1
+  let time : Int := date_time.2
+  -- timestamp.rs:323: if time.hour().unwrap() >= 12 {
+  if (fun (self : Int) => asI32 (rdiv self USECONDS_PER_HOUR)) time ≥ 12 then
+    match Tr.Date.add_days date 1 with
+    | Except.error err => Except.error err
+    | Except.ok r1 =>
+        -- timestamp.rs:324: date = date.add_days(1)?;
+        let date : Int := r1
+        -- timestamp.rs:326: let year = date.extract().0;
+        let year : Int := (Tr.Date.extract date).1
+        match Tr.Date.round_week_internal date year with
+        | Except.error err => Except.error err
+        | Except.ok r2 => Except.ok (Tr.Date.and_zero_time r2)
+  else
+    -- timestamp.rs:326: let year = date.extract().0;
+    let year : Int := (Tr.Date.extract date).1
+    match Tr.Date.round_week_internal date year with
+    | Except.error err => Except.error err
+    | Except.ok r3 => Except.ok (Tr.Date.and_zero_time r3)
+
+/-- No arithmetic node of `timestamp.rs::Round for Timestamp::round_week` leaves its Rust integer type, no division by zero, no index out of range
+    (path-sensitive; calls contribute the callee's predicate). -/
+def Timestamp.round_week_safe (self : Int) : Prop :=
+  Tr.Timestamp.extract_safe self ∧
+  let date_time : Int × Int := Tr.Timestamp.extract self
+  let date : Int := date_time.1
+  let time : Int := date_time.2
+  ((fun (self : Int) => asI32 (rdiv self USECONDS_PER_HOUR)) time ≥ 12 →
+    Tr.Date.add_days_safe date 1 ∧
+    (match Tr.Date.add_days date 1 with
+     | Except.error err => True
+     | Except.ok r1 =>
+         let date : Int := r1
+         Tr.Date.extract_safe date ∧
+         let year : Int := (Tr.Date.extract date).1
+         Tr.Date.round_week_internal_safe date year ∧
+         (match Tr.Date.round_week_internal date year with
+          | Except.error err => True
+          | Except.ok r2 => Tr.Date.and_zero_time_safe r2))) ∧
+  (¬ (fun (self : Int) => asI32 (rdiv self USECONDS_PER_HOUR)) time ≥ 12 →
+    Tr.Date.extract_safe date ∧
+    let year : Int := (Tr.Date.extract date).1
+    Tr.Date.round_week_internal_safe date year ∧
+    (match Tr.Date.round_week_internal date year with
+     | Except.error err => True
+     | Except.ok r3 => Tr.Date.and_zero_time_safe r3))
+
+/-- `oracle.rs::Round for OracleDate::round_week` (oracle.rs:277), body sha1 a9d6712bed15 -/
+def OracleDate.round_week (self : Int) : Chk Int :=
+  match Tr.Timestamp.round_week self with
+  | Except.error err => Except.error err
+  | Except.ok r1 => Except.ok (Tr.OracleDate.from_timestamp r1)
+
+/-- No arithmetic node of `oracle.rs::Round for OracleDate::round_week` leaves its Rust integer type, no division by zero, no index out of range
+    (path-sensitive; calls contribute the callee's predicate). -/
+def OracleDate.round_week_safe (self : Int) : Prop :=
+  Tr.Timestamp.round_week_safe self ∧
+  (match Tr.Timestamp.round_week self with
+   | Except.error err => True
+   | Except.ok r1 => Tr.OracleDate.from_timestamp_safe r1)
 
 /-- `date.rs::Round for Date::round_iso_week` (date.rs:654), body sha1 c772596f367b -/
 def Date.round_iso_week (self : Int) : Chk Int :=
@@ -2642,6 +3349,65 @@ def Date.round_iso_week_safe (self : Int) : Prop :=
   (to_first_date_of_week = true → Tr.sub_to_date_safe self remain_day) ∧
   (¬ to_first_date_of_week = true → Tr.current_date_safe self remain_day)
 
+/-- `timestamp.rs::Round for Timestamp::round_iso_week` (timestamp.rs:332), body sha1 735017aef19d -/
+-- inlined helpers: time.rs::DateTime for Time::hour
+def Timestamp.round_iso_week (self : Int) : Chk Int :=
+  -- timestamp.rs:333: let (mut date, time) = self.extract();
+  let date_time : Int × Int := Tr.Timestamp.extract self
+  let date : Int := date_time.1
+  let time : Int := date_time.2
+  -- timestamp.rs:334: if time.hour().unwrap() >= 12 {
+  if (fun (self : Int) => asI32 (rdiv self USECONDS_PER_HOUR)) time ≥ 12 then
+    match Tr.Date.add_days date 1 with
+    | Except.error err => Except.error err
+    | Except.ok r1 =>
+        -- timestamp.rs:335: date = date.add_days(1)?;
+        let date : Int := r1
+        match Tr.Date.round_iso_week date with
+        | Except.error err => Except.error err
+        | Except.ok r2 => Except.ok (Tr.Date.and_zero_time r2)
+  else
+    match Tr.Date.round_iso_week date with
+    | Except.error err => Except.error err
+    | Except.ok r3 => Except.ok (Tr.Date.and_zero_time r3)
+
+/-- No arithmetic node of `timestamp.rs::Round for Timestamp::round_iso_week` leaves its Rust integer type, no division by zero, no index out of range
+    (path-sensitive; calls contribute the callee's predicate). -/
+def Timestamp.round_iso_week_safe (self : Int) : Prop :=
+  Tr.Timestamp.extract_safe self ∧
+  let date_time : Int × Int := Tr.Timestamp.extract self
+  let date : Int := date_time.1
+  let time : Int := date_time.2
+  ((fun (self : Int) => asI32 (rdiv self USECONDS_PER_HOUR)) time ≥ 12 →
+    Tr.Date.add_days_safe date 1 ∧
+    (match Tr.Date.add_days date 1 with
+     | Except.error err => True
+     | Except.ok r1 =>
+         let date : Int := r1
+         Tr.Date.round_iso_week_safe date ∧
+         (match Tr.Date.round_iso_week date with
+          | Except.error err => True
+          | Except.ok r2 => Tr.Date.and_zero_time_safe r2))) ∧
+  (¬ (fun (self : Int) => asI32 (rdiv self USECONDS_PER_HOUR)) time ≥ 12 →
+    Tr.Date.round_iso_week_safe date ∧
+    (match Tr.Date.round_iso_week date with
+     | Except.error err => True
+     | Except.ok r3 => Tr.Date.and_zero_time_safe r3))
+
+/-- `oracle.rs::Round for OracleDate::round_iso_week` (oracle.rs:282), body sha1 15f00e773707 -/
+def OracleDate.round_iso_week (self : Int) : Chk Int :=
+  match Tr.Timestamp.round_iso_week self with
+  | Except.error err => Except.error err
+  | Except.ok r1 => Except.ok (Tr.OracleDate.from_timestamp r1)
+
+/-- No arithmetic node of `oracle.rs::Round for OracleDate::round_iso_week` leaves its Rust integer type, no division by zero, no index out of range
+    (path-sensitive; calls contribute the callee's predicate). -/
+def OracleDate.round_iso_week_safe (self : Int) : Prop :=
+  Tr.Timestamp.round_iso_week_safe self ∧
+  (match Tr.Timestamp.round_iso_week self with
+   | Except.error err => True
+   | Except.ok r1 => Tr.OracleDate.from_timestamp_safe r1)
+
 /-- `date.rs::Round for Date::round_month_start_week` (date.rs:672), body sha1 9f664faacb59 -/
 -- inlined helpers: date.rs::DateTime for Date::day
 def Date.round_month_start_week (self : Int) : Chk Int :=
@@ -2653,6 +3419,73 @@ def Date.round_month_start_week_safe (self : Int) : Prop :=
   (fun (self : Int) => Tr.Date.extract_safe self) self ∧
   (Tr.Date.round_month_start_week_internal_safe self ((fun (self : Int) => let t1 : Int × Int × Int := Tr.Date.extract self; let day : Int := t1.2.2; asI32 day) self))
 
+/-- `timestamp.rs::Round for Timestamp::round_month_start_week` (timestamp.rs:341), body sha1 987d77e5b9f2 -/
+-- inlined helpers: time.rs::DateTime for Time::hour
+def Timestamp.round_month_start_week (self : Int) : Chk Int :=
+  -- timestamp.rs:342: let (mut date, time) = self.extract();
+  let date_time : Int × Int := Tr.Timestamp.extract self
+  let date : Int := date_time.1
+  let time : Int := date_time.2
+  -- timestamp.rs:343: if time.hour().unwrap() >= 12 {
+  if (fun (self : Int) => asI32 (rdiv self USECONDS_PER_HOUR)) time ≥ 12 then
+    match Tr.Date.add_days date 1 with
+    | Except.error err => Except.error err
+    | Except.ok r1 =>
+        -- timestamp.rs:344: date = date.add_days(1)?;
+        let date : Int := r1
+        -- timestamp.rs:346: let day = date.extract().2;
+        let day : Int := (Tr.Date.extract date).2.2
+        match Tr.Date.round_month_start_week_internal date (asI32 day) with
+        | Except.error err => Except.error err
+        | Except.ok r2 => Except.ok (Tr.Date.and_zero_time r2)
+  else
+    -- timestamp.rs:346: let day = date.extract().2;
+    let day : Int := (Tr.Date.extract date).2.2
+    match Tr.Date.round_month_start_week_internal date (asI32 day) with
+    | Except.error err => Except.error err
+    | Except.ok r3 => Except.ok (Tr.Date.and_zero_time r3)
+
+/-- No arithmetic node of `timestamp.rs::Round for Timestamp::round_month_start_week` leaves its Rust integer type, no division by zero, no index out of range
+    (path-sensitive; calls contribute the callee's predicate). -/
+def Timestamp.round_month_start_week_safe (self : Int) : Prop :=
+  Tr.Timestamp.extract_safe self ∧
+  let date_time : Int × Int := Tr.Timestamp.extract self
+  let date : Int := date_time.1
+  let time : Int := date_time.2
+  ((fun (self : Int) => asI32 (rdiv self USECONDS_PER_HOUR)) time ≥ 12 →
+    Tr.Date.add_days_safe date 1 ∧
+    (match Tr.Date.add_days date 1 with
+     | Except.error err => True
+     | Except.ok r1 =>
+         let date : Int := r1
+         Tr.Date.extract_safe date ∧
+         let day : Int := (Tr.Date.extract date).2.2
+         Tr.Date.round_month_start_week_internal_safe date (asI32 day) ∧
+         (match Tr.Date.round_month_start_week_internal date (asI32 day) with
+          | Except.error err => True
+          | Except.ok r2 => Tr.Date.and_zero_time_safe r2))) ∧
+  (¬ (fun (self : Int) => asI32 (rdiv self USECONDS_PER_HOUR)) time ≥ 12 →
+    Tr.Date.extract_safe date ∧
+    let day : Int := (Tr.Date.extract date).2.2
+    Tr.Date.round_month_start_week_internal_safe date (asI32 day) ∧
+    (match Tr.Date.round_month_start_week_internal date (asI32 day) with
+     | Except.error err => True
+     | Except.ok r3 => Tr.Date.and_zero_time_safe r3))
+
+/-- `oracle.rs::Round for OracleDate::round_month_start_week` (oracle.rs:287), body sha1 df7e3b20b77c -/
+def OracleDate.round_month_start_week (self : Int) : Chk Int :=
+  match Tr.Timestamp.round_month_start_week self with
+  | Except.error err => Except.error err
+  | Except.ok r1 => Except.ok (Tr.OracleDate.from_timestamp r1)
+
+/-- No arithmetic node of `oracle.rs::Round for OracleDate::round_month_start_week` leaves its Rust integer type, no division by zero, no index out of range
+    (path-sensitive; calls contribute the callee's predicate). -/
+def OracleDate.round_month_start_week_safe (self : Int) : Prop :=
+  Tr.Timestamp.round_month_start_week_safe self ∧
+  (match Tr.Timestamp.round_month_start_week self with
+   | Except.error err => True
+   | Except.ok r1 => Tr.OracleDate.from_timestamp_safe r1)
+
 /-- `date.rs::Round for Date::round_day` (date.rs:677), body sha1 77e10b773168 -/
 def Date.round_day (self : Int) : Chk Int :=
   Except.ok self
@@ -2661,6 +3494,52 @@ def Date.round_day (self : Int) : Chk Int :=
     (path-sensitive; calls contribute the callee's predicate). -/
 def Date.round_day_safe (self : Int) : Prop :=
   True
+
+/-- `timestamp.rs::Round for Timestamp::round_day` (timestamp.rs:354), body sha1 7cc38ff4a192 -/
+-- inlined helpers: time.rs::DateTime for Time::hour, timestamp.rs::DateTime for Timestamp::hour
+def Timestamp.round_day (self : Int) : Chk Int :=
+  -- timestamp.rs:355: let mut date = self.date();
+  let date : Int := Tr.Timestamp.date self
+  -- timestamp.rs:356: if self.hour().unwrap() >= 12 {
+  if (fun (self : Int) => (fun (self : Int) => asI32 (rdiv self USECONDS_PER_HOUR)) (Tr.Timestamp.time self)) self ≥ 12 then
+    match Tr.Date.add_days date 1 with
+    | Except.error err => Except.error err
+    | Except.ok r1 =>
+        -- timestamp.rs:357: date = date.add_days(1)?;
+        let date : Int := r1
+        Except.ok (Tr.Date.and_zero_time date)
+  else
+    Except.ok (Tr.Date.and_zero_time date)
+
+/-- No arithmetic node of `timestamp.rs::Round for Timestamp::round_day` leaves its Rust integer type, no division by zero, no index out of range
+    (path-sensitive; calls contribute the callee's predicate). -/
+def Timestamp.round_day_safe (self : Int) : Prop :=
+  Tr.Timestamp.date_safe self ∧
+  let date : Int := Tr.Timestamp.date self
+  (fun (self : Int) => Tr.Timestamp.time_safe self) self ∧
+  ((fun (self : Int) => (fun (self : Int) => asI32 (rdiv self USECONDS_PER_HOUR)) (Tr.Timestamp.time self)) self ≥ 12 →
+    Tr.Date.add_days_safe date 1 ∧
+    (match Tr.Date.add_days date 1 with
+     | Except.error err => True
+     | Except.ok r1 =>
+         let date : Int := r1
+         Tr.Date.and_zero_time_safe date)) ∧
+  (¬ (fun (self : Int) => (fun (self : Int) => asI32 (rdiv self USECONDS_PER_HOUR)) (Tr.Timestamp.time self)) self ≥ 12 →
+    Tr.Date.and_zero_time_safe date)
+
+/-- `oracle.rs::Round for OracleDate::round_day` (oracle.rs:292), body sha1 e99934e3c195 -/
+def OracleDate.round_day (self : Int) : Chk Int :=
+  match Tr.Timestamp.round_day self with
+  | Except.error err => Except.error err
+  | Except.ok r1 => Except.ok (Tr.OracleDate.from_timestamp r1)
+
+/-- No arithmetic node of `oracle.rs::Round for OracleDate::round_day` leaves its Rust integer type, no division by zero, no index out of range
+    (path-sensitive; calls contribute the callee's predicate). -/
+def OracleDate.round_day_safe (self : Int) : Prop :=
+  Tr.Timestamp.round_day_safe self ∧
+  (match Tr.Timestamp.round_day self with
+   | Except.error err => True
+   | Except.ok r1 => Tr.OracleDate.from_timestamp_safe r1)
 
 /-- `date.rs::Round for Date::round_sunday_start_week` (date.rs:682), body sha1 defd31267fa0 -/
 def Date.round_sunday_start_week (self : Int) : Chk Int :=
@@ -2690,6 +3569,65 @@ def Date.round_sunday_start_week_safe (self : Int) : Prop :=
   (to_first_date_of_week = true → Tr.sub_to_date_safe self remain_day) ∧
   (¬ to_first_date_of_week = true → Tr.current_date_safe self remain_day)
 
+/-- `timestamp.rs::Round for Timestamp::round_sunday_start_week` (timestamp.rs:363), body sha1 019d248e1505 -/
+-- inlined helpers: time.rs::DateTime for Time::hour
+def Timestamp.round_sunday_start_week (self : Int) : Chk Int :=
+  -- timestamp.rs:364: let (mut date, time) = self.extract();
+  let date_time : Int × Int := Tr.Timestamp.extract self
+  let date : Int := date_time.1
+  let time : Int := date_time.2
+  -- timestamp.rs:365: if time.hour().unwrap() >= 12 {
+  if (fun (self : Int) => asI32 (rdiv self USECONDS_PER_HOUR)) time ≥ 12 then
+    match Tr.Date.add_days date 1 with
+    | Except.error err => Except.error err
+    | Except.ok r1 =>
+        -- timestamp.rs:366: date = date.add_days(1)?;
+        let date : Int := r1
+        match Tr.Date.round_sunday_start_week date with
+        | Except.error err => Except.error err
+        | Except.ok r2 => Except.ok (Tr.Date.and_zero_time r2)
+  else
+    match Tr.Date.round_sunday_start_week date with
+    | Except.error err => Except.error err
+    | Except.ok r3 => Except.ok (Tr.Date.and_zero_time r3)
+
+/-- No arithmetic node of `timestamp.rs::Round for Timestamp::round_sunday_start_week` leaves its Rust integer type, no division by zero, no index out of range
+    (path-sensitive; calls contribute the callee's predicate). -/
+def Timestamp.round_sunday_start_week_safe (self : Int) : Prop :=
+  Tr.Timestamp.extract_safe self ∧
+  let date_time : Int × Int := Tr.Timestamp.extract self
+  let date : Int := date_time.1
+  let time : Int := date_time.2
+  ((fun (self : Int) => asI32 (rdiv self USECONDS_PER_HOUR)) time ≥ 12 →
+    Tr.Date.add_days_safe date 1 ∧
+    (match Tr.Date.add_days date 1 with
+     | Except.error err => True
+     | Except.ok r1 =>
+         let date : Int := r1
+         Tr.Date.round_sunday_start_week_safe date ∧
+         (match Tr.Date.round_sunday_start_week date with
+          | Except.error err => True
+          | Except.ok r2 => Tr.Date.and_zero_time_safe r2))) ∧
+  (¬ (fun (self : Int) => asI32 (rdiv self USECONDS_PER_HOUR)) time ≥ 12 →
+    Tr.Date.round_sunday_start_week_safe date ∧
+    (match Tr.Date.round_sunday_start_week date with
+     | Except.error err => True
+     | Except.ok r3 => Tr.Date.and_zero_time_safe r3))
+
+/-- `oracle.rs::Round for OracleDate::round_sunday_start_week` (oracle.rs:297), body sha1 21c5700aa63e -/
+def OracleDate.round_sunday_start_week (self : Int) : Chk Int :=
+  match Tr.Timestamp.round_sunday_start_week self with
+  | Except.error err => Except.error err
+  | Except.ok r1 => Except.ok (Tr.OracleDate.from_timestamp r1)
+
+/-- No arithmetic node of `oracle.rs::Round for OracleDate::round_sunday_start_week` leaves its Rust integer type, no division by zero, no index out of range
+    (path-sensitive; calls contribute the callee's predicate). -/
+def OracleDate.round_sunday_start_week_safe (self : Int) : Prop :=
+  Tr.Timestamp.round_sunday_start_week_safe self ∧
+  (match Tr.Timestamp.round_sunday_start_week self with
+   | Except.error err => True
+   | Except.ok r1 => Tr.OracleDate.from_timestamp_safe r1)
+
 /-- `date.rs::Round for Date::round_hour` (date.rs:700), body sha1 77e10b773168 -/
 def Date.round_hour (self : Int) : Chk Int :=
   Except.ok self
@@ -2699,6 +3637,75 @@ def Date.round_hour (self : Int) : Chk Int :=
 def Date.round_hour_safe (self : Int) : Prop :=
   True
 
+/-- `timestamp.rs::Round for Timestamp::round_hour` (timestamp.rs:372), body sha1 a31468d82781 -/
+def Timestamp.round_hour (self : Int) : Chk Int :=
+  -- timestamp.rs:373: let mut date = self.date();
+  let date : Int := Tr.Timestamp.date self
+  -- timestamp.rs:374: let (mut hour, minute, _, _) = self.time().extract();
+  let hour_minute : Int × Int × Int × Int := Tr.Time.extract (Tr.Timestamp.time self)
+  let hour : Int := hour_minute.1
+  let minute : Int := hour_minute.2.1
+  -- timestamp.rs:375: if minute >= 30 {
+  if minute ≥ 30 then
+    if hour ≥ 23 then
+      match Tr.Date.add_days date 1 with
+      | Except.error err => Except.error err
+      | Except.ok r1 =>
+          -- timestamp.rs:377: date = date.add_days(1)?;
+          let date : Int := r1
+          -- timestamp.rs:378: hour = 0;
+          let hour : Int := 0
+          Except.ok (Tr.Date.and_time date (Tr.Time.from_hms_unchecked 0 0 0 0))
+    else
+      -- timestamp.rs:380: hour += 1
+      let hour : Int := hour + 1
+      Except.ok (Tr.Date.and_time date (Tr.Time.from_hms_unchecked hour 0 0 0))
+  else
+    Except.ok (Tr.Date.and_time date (Tr.Time.from_hms_unchecked hour 0 0 0))
+
+/-- No arithmetic node of `timestamp.rs::Round for Timestamp::round_hour` leaves its Rust integer type, no division by zero, no index out of range
+    (path-sensitive; calls contribute the callee's predicate). -/
+def Timestamp.round_hour_safe (self : Int) : Prop :=
+  Tr.Timestamp.date_safe self ∧
+  let date : Int := Tr.Timestamp.date self
+  Tr.Timestamp.time_safe self ∧
+  Tr.Time.extract_safe (Tr.Timestamp.time self) ∧
+  let hour_minute : Int × Int × Int × Int := Tr.Time.extract (Tr.Timestamp.time self)
+  let hour : Int := hour_minute.1
+  let minute : Int := hour_minute.2.1
+  (minute ≥ 30 →
+    (hour ≥ 23 →
+      Tr.Date.add_days_safe date 1 ∧
+      (match Tr.Date.add_days date 1 with
+       | Except.error err => True
+       | Except.ok r1 =>
+           let date : Int := r1
+           let hour : Int := 0
+           Tr.Time.from_hms_unchecked_safe 0 0 0 0 ∧
+           Tr.Date.and_time_safe date (Tr.Time.from_hms_unchecked 0 0 0 0))) ∧
+    (¬ hour ≥ 23 →
+      fitsU32 (hour + 1) ∧
+      let hour : Int := hour + 1
+      Tr.Time.from_hms_unchecked_safe hour 0 0 0 ∧
+      Tr.Date.and_time_safe date (Tr.Time.from_hms_unchecked hour 0 0 0))) ∧
+  (¬ minute ≥ 30 →
+    Tr.Time.from_hms_unchecked_safe hour 0 0 0 ∧
+    Tr.Date.and_time_safe date (Tr.Time.from_hms_unchecked hour 0 0 0))
+
+/-- `oracle.rs::Round for OracleDate::round_hour` (oracle.rs:302), body sha1 cd1aa3cb7a1f -/
+def OracleDate.round_hour (self : Int) : Chk Int :=
+  match Tr.Timestamp.round_hour self with
+  | Except.error err => Except.error err
+  | Except.ok r1 => Except.ok (Tr.OracleDate.from_timestamp r1)
+
+/-- No arithmetic node of `oracle.rs::Round for OracleDate::round_hour` leaves its Rust integer type, no division by zero, no index out of range
+    (path-sensitive; calls contribute the callee's predicate). -/
+def OracleDate.round_hour_safe (self : Int) : Prop :=
+  Tr.Timestamp.round_hour_safe self ∧
+  (match Tr.Timestamp.round_hour self with
+   | Except.error err => True
+   | Except.ok r1 => Tr.OracleDate.from_timestamp_safe r1)
+
 /-- `date.rs::Round for Date::round_minute` (date.rs:705), body sha1 77e10b773168 -/
 def Date.round_minute (self : Int) : Chk Int :=
   Except.ok self
@@ -2707,5 +3714,94 @@ def Date.round_minute (self : Int) : Chk Int :=
     (path-sensitive; calls contribute the callee's predicate). -/
 def Date.round_minute_safe (self : Int) : Prop :=
   True
+
+/-- `timestamp.rs::Round for Timestamp::round_minute` (timestamp.rs:387), body sha1 dd397222df08 -/
+def Timestamp.round_minute (self : Int) : Chk Int :=
+  -- timestamp.rs:388: let mut date = self.date();
+  let date : Int := Tr.Timestamp.date self
+  -- timestamp.rs:389: let (mut hour, mut minute, sec, _) = self.time().extract();
+  let hour_minute_sec : Int × Int × Int × Int := Tr.Time.extract (Tr.Timestamp.time self)
+  let hour : Int := hour_minute_sec.1
+  let minute : Int := hour_minute_sec.2.1
+  let sec : Int := hour_minute_sec.2.2.1
+  -- timestamp.rs:390: if sec >= 30 {
+  if sec ≥ 30 then
+    if minute = 59 then
+      -- timestamp.rs:392: if hour == 23 {
+      if hour = 23 then
+        match Tr.Date.add_days date 1 with
+        | Except.error err => Except.error err
+        | Except.ok r1 =>
+            -- timestamp.rs:393: date = date.add_days(1)?;
+            let date : Int := r1
+            -- timestamp.rs:394: hour = 0;
+            let hour : Int := 0
+            -- timestamp.rs:398: minute = 0;
+            let minute : Int := 0
+            Except.ok (Tr.Date.and_time date (Tr.Time.from_hms_unchecked 0 0 0 0))
+      else
+        -- timestamp.rs:396: hour += 1;
+        let hour : Int := hour + 1
+        -- timestamp.rs:398: minute = 0;
+        let minute : Int := 0
+        Except.ok (Tr.Date.and_time date (Tr.Time.from_hms_unchecked hour 0 0 0))
+    else
+      -- timestamp.rs:400: minute += 1;
+      let minute : Int := minute + 1
+      Except.ok (Tr.Date.and_time date (Tr.Time.from_hms_unchecked hour minute 0 0))
+  else
+    Except.ok (Tr.Date.and_time date (Tr.Time.from_hms_unchecked hour minute 0 0))
+
+/-- No arithmetic node of `timestamp.rs::Round for Timestamp::round_minute` leaves its Rust integer type, no division by zero, no index out of range
+    (path-sensitive; calls contribute the callee's predicate). -/
+def Timestamp.round_minute_safe (self : Int) : Prop :=
+  Tr.Timestamp.date_safe self ∧
+  let date : Int := Tr.Timestamp.date self
+  Tr.Timestamp.time_safe self ∧
+  Tr.Time.extract_safe (Tr.Timestamp.time self) ∧
+  let hour_minute_sec : Int × Int × Int × Int := Tr.Time.extract (Tr.Timestamp.time self)
+  let hour : Int := hour_minute_sec.1
+  let minute : Int := hour_minute_sec.2.1
+  let sec : Int := hour_minute_sec.2.2.1
+  (sec ≥ 30 →
+    (minute = 59 →
+      (hour = 23 →
+        Tr.Date.add_days_safe date 1 ∧
+        (match Tr.Date.add_days date 1 with
+         | Except.error err => True
+         | Except.ok r1 =>
+             let date : Int := r1
+             let hour : Int := 0
+             let minute : Int := 0
+             Tr.Time.from_hms_unchecked_safe 0 0 0 0 ∧
+             Tr.Date.and_time_safe date (Tr.Time.from_hms_unchecked 0 0 0 0))) ∧
+      (¬ hour = 23 →
+        fitsU32 (hour + 1) ∧
+        let hour : Int := hour + 1
+        let minute : Int := 0
+        Tr.Time.from_hms_unchecked_safe hour 0 0 0 ∧
+        Tr.Date.and_time_safe date (Tr.Time.from_hms_unchecked hour 0 0 0))) ∧
+    (¬ minute = 59 →
+      fitsU32 (minute + 1) ∧
+      let minute : Int := minute + 1
+      Tr.Time.from_hms_unchecked_safe hour minute 0 0 ∧
+      Tr.Date.and_time_safe date (Tr.Time.from_hms_unchecked hour minute 0 0))) ∧
+  (¬ sec ≥ 30 →
+    Tr.Time.from_hms_unchecked_safe hour minute 0 0 ∧
+    Tr.Date.and_time_safe date (Tr.Time.from_hms_unchecked hour minute 0 0))
+
+/-- `oracle.rs::Round for OracleDate::round_minute` (oracle.rs:307), body sha1 d71d292b5987 -/
+def OracleDate.round_minute (self : Int) : Chk Int :=
+  match Tr.Timestamp.round_minute self with
+  | Except.error err => Except.error err
+  | Except.ok r1 => Except.ok (Tr.OracleDate.from_timestamp r1)
+
+/-- No arithmetic node of `oracle.rs::Round for OracleDate::round_minute` leaves its Rust integer type, no division by zero, no index out of range
+    (path-sensitive; calls contribute the callee's predicate). -/
+def OracleDate.round_minute_safe (self : Int) : Prop :=
+  Tr.Timestamp.round_minute_safe self ∧
+  (match Tr.Timestamp.round_minute self with
+   | Except.error err => True
+   | Except.ok r1 => Tr.OracleDate.from_timestamp_safe r1)
 
 end SqlDt.Tr
